@@ -567,6 +567,19 @@ func c06RRContent(c *Ctx) {
 func c06Learning(c *Ctx) {
 	w := c.w
 	rule := "learning"
+	// one table of learnt routes for all the listeners of a proxy configuration: a next hop learnt through listener A
+	// must be known when the request that is relayed to it arrives on listener B. The table is created once per
+	// startProxy call, outside its loop over the listens, and every other creation is flagged.
+	nNew := 0
+	for _, fn := range w.All {
+		for _, cs := range w.callsIn(fn, "NewSelfLearnRoute") {
+			nNew++
+			inStart := w.fname(fn) == "startProxy"
+			inLoop := sameCycle(cs.In.Block(), cs.In.Block())
+			c.check(inStart && !inLoop, rule, fmt.Sprintf("learn-table/created-once@%s#%d", w.fname(fn), nNew), w.ipos(cs.In), "the table of learnt routes is created once per proxy configuration", "a table of learnt routes is created in "+w.fname(fn)+" (in a loop: "+fmt.Sprint(inLoop)+"): each listener then has its own table, a next hop learnt through one listener is unknown to the others, and a request relayed to it from another listener goes out without the proxy's Via and Record-Route")
+		}
+	}
+	c.check(nNew >= 1, rule, "learn-table/created", "-", "the table is created", "no table of learnt routes is created")
 	f := c.fn(rule, "(*Proxy).handleRawMessage")
 	if f == nil {
 		return
